@@ -822,7 +822,9 @@ class _ExecutorManagerThread(threading.Thread):
         self.executor_flags.flag_as_broken(bpe)
 
         # Mark pending tasks as failed.
-        for work_item in self.pending_work_items.values():
+        # Iterate over a snapshot: the queue feeder thread can concurrently pop
+        # a work item from this dict when it fails to pickle a task.
+        for work_item in list(self.pending_work_items.values()):
             try:
                 work_item.future.set_exception(bpe)
             except InvalidStateError:
